@@ -39,6 +39,7 @@ func (p *Pool) AcquireMessage(ctx context.Context) *Message {
 		panic(fmt.Errorf("invalid message type(%T) for pool", v))
 	}
 	p.currentMessagesInPool.Dec()
+	verifAcquire(p, r)
 	r.ctx = ctx
 	return r
 }
@@ -48,6 +49,7 @@ func (p *Pool) AcquireMessage(ctx context.Context) *Message {
 // It is forbidden accessing req and/or its' members after returning
 // it to Message pool.
 func (p *Pool) ReleaseMessage(req *Message) {
+	verifRelease(p, req)
 	for {
 		v := p.currentMessagesInPool.Load()
 		if v >= int64(p.maxNumMessages) {
@@ -60,5 +62,6 @@ func (p *Pool) ReleaseMessage(req *Message) {
 	}
 	req.Reset()
 	req.ctx = nil
+	verifPooled(p, req)
 	p.messagePool.Put(req)
 }
